@@ -148,7 +148,11 @@ impl fmt::Display for KNumber {
 
 impl Hash for KNumber {
     fn hash<H: Hasher>(&self, state: &mut H) {
-        state.write_u64(self.to_bits())
+        // Numbers that are equal need to have equal hashes (e.g. `1` and `1.0`, `0.0` and `-0.0`).
+        // Integers and floats are compared as f64, so the hash is derived from the f64 value.
+        let n = f64::from(self);
+        let bits = if n == 0.0 { 0 } else { n.to_bits() };
+        state.write_u64(bits)
     }
 }
 
